@@ -30,7 +30,7 @@ import terms
 
 PID = "C13"
 PROPS = ["PfModel.Props.C13", "PfModel.Props.C13Async", "PfModel.Props.C13Store", "PfModel.Props.C13Kinds", "PfModel.Props.C13Proto",
-         "PfModel.Props.C13File", "PfModel.Props.C13Snap", "PfModel.Props.C13Gens"]
+         "PfModel.Props.C13File", "PfModel.Props.C13Snap", "PfModel.Props.C13Gens", "PfModel.Props.C13Owed"]
 DRIVER = "C13"
 RULE = ("mapgen pipelines (1-4 functions, mapped / reducing / internal-axis / generator / plain, 1-3 generations) and pipegen DAGs "
         "(1-5 functions, tuple outputs, renames, defaults, bound); for every invocation of the failure-free run (function, call "
@@ -43,7 +43,7 @@ RULE = ("mapgen pipelines (1-4 functions, mapped / reducing / internal-axis / ge
         "second failing run on the same pipeline object (stale snapshots), and injections that match nothing (no failure: the "
         "model must equal PF.Map.runMap); plus the stream `snapfile` (c13_file.py): real ErrorSnapshots of failing PipeFunc calls (1-3 keyword "
         "arguments, or built directly with positional args) whose argument values are atoms / tuples / lists / dicts / dataclass instances "
-        "(DBox, Pair) nested to depth 3, any exception kind, saved and loaded, every dataclass field compared with the file model. Non-trivial = some other invocation runs besides the raising one; distinct by "
+        "(DBox, Pair) nested to depth 3, any exception kind, saved and loaded, every dataclass field compared with the file model. After every failed in-process run on file storage the worker also reports the log in the order it was written (entered / returned): the elements of the invocations that returned before the first raising one was entered (`map.owed`, `owedStore`) must each load as the value of the failure-free run - also inside the failing generation. Non-trivial = some other invocation runs besides the raising one; distinct by "
         "(pipeline, raising invocations, exception class, mode, storage)")
 ASSUMPTIONS = ["exception pickling across processes and executor shutdown are runtime behaviour: checked by the harness (type/args/notes at the "
                "caller, watchdog), not proved; save_to_file/load_from_file is the token-stream model of Model/ErrorsFile.lean (C13_file_roundtrip) - that "
@@ -57,6 +57,10 @@ ASSUMPTIONS = ["exception pickling across processes and executor shutdown are ru
                "process pool) are modelled / counted as `outside-text:*`, never a violation of the property",
                "the re-run after a failure (C13_resume_completes) is compared for file_array storage and sequential re-runs; pipelines using "
                "PipeFunc.internal_shape are skipped (DF-30, C06)",
+               "'completed before the failure' is read off the implementation's log: an invocation whose `done` record precedes the `call` record of the first raising "
+               "invocation (one O_APPEND file: real-time order, also across pool threads); only element-wise invocations (mapspec with inputs) owe an element - whole-value "
+               "outputs of the FAILING generation are dumped by `_process_generation`, which a failing generation never reaches (modelled, `seqGen`; not judged); invocations "
+               "that receive equal values (interpreted constants) are listed only when all of them completed",
                "a pool schedule is fair: every submitted task eventually runs (hypothesis of C13_surface / C13_no_hang)",
                "map_async and a StopIteration: no coroutine can raise one (PEP 479), so the caller of `await` gets the RuntimeError of "
                "`awaitExn` whose __cause__ is the user function's StopIteration (notes copied); every other clause is judged on the cause "
@@ -457,6 +461,97 @@ def plan_call(ctx, rng, desc, out, kw, calls):
     return injs
 
 
+# ------------------------------------------------------------------------------------------------ what a failed run owes
+def completed_before_failure(step, o):
+    """The invocations the IMPLEMENTATION logged as returned ("done") before the first raising invocation was entered — the text's
+    "results completed before the failure", read off the implementation's own log (no model involved)."""
+    ev = o.get("events")
+    if ev is None:
+        return None
+    done = []
+    for name, kw_enc, phase in ev:
+        if phase == "call" and any(t[0] == name and (t[1] is None or t[1] == json.dumps(kw_enc, sort_keys=True)) for t in step["targets"]):
+            return done
+        if phase == "done":
+            done.append([name, kw_enc])
+    return None          # no raising invocation was entered
+
+
+def owed_request(ctx, desc, step, o):
+    """`map.owed` for one failed in-process run on file storage: the elements the completed invocations produced (`owedStore`).
+    An invocation of the log is named to the model by the invocation(s) of the failure-free run that receive the same values; when
+    several do (interpreted constants) and not all of them completed, none of them is listed (which one ran is not observable)."""
+    if step.get("mode") not in IN_PROCESS or o.get("outcome") != "raised" or o.get("loaded") is None or not step.get("model_calls"):
+        return None
+    done = completed_before_failure(step, o)
+    if not done:
+        return None
+    full = collections.defaultdict(list)
+    for n, kw in step["model_calls"]:
+        full[json.dumps([n, canon_kw(kw)], sort_keys=True)].append([n, kw])
+    completed = []
+    for key, k in collections.Counter(json.dumps(c, sort_keys=True) for c in done).items():
+        if key not in full:
+            ctx.count("owed:invocation-unknown-to-the-model(not listed)")
+        elif k >= len(full[key]):
+            completed += full[key]
+        else:
+            ctx.count("owed:colliding-invocations-partly-completed(not listed)")
+    if not completed:
+        return None
+    a = mapgen.model_request(desc)
+    a["completed"] = completed
+    return {"m": "map.owed", "a": a}
+
+
+def attach_owed(ctx, items):
+    """one driver batch for all runs: `step["model_owed"]` = the owed elements of the run observed as `o`"""
+    reqs, slots = [], []
+    for desc, step, o in items:
+        try:
+            rq = owed_request(ctx, desc, step, o)
+        except Exception:  # noqa: BLE001  (an observation of an unexpected form is judged elsewhere)
+            rq = None
+        if rq is not None:
+            reqs.append(rq)
+            slots.append(step)
+    if reqs:
+        for step, resp in zip(slots, ctx.lean(reqs)):
+            step["model_owed"] = resp["r"]
+
+
+def judge_owed(ctx, case, step, o, mode):
+    """Clause "results completed before the failure remain loadable", element by element: every element produced by an invocation the
+    implementation itself logged as completed before the failing one must load as the value of the failure-free run."""
+    R = step.get("model_owed")
+    if R is None:
+        return True
+    if "owed" not in R:
+        raise AssertionError(f"driver: map.owed refuses a generated case: {R} {json.dumps(case)[:400]}")
+    bad, n = [], 0
+    for out, v in R["owed"]:
+        wv = terms.canon(v)
+        cells = wv["arr"][1] if isinstance(wv, dict) and "arr" in wv else []
+        gv = o["loaded"].get(out)
+        gcells = gv["arr"][1] if isinstance(gv, dict) and "arr" in gv and gv["arr"][0] == wv["arr"][0] else None
+        for i, c in enumerate(cells):
+            if c == "M":
+                continue
+            n += 1
+            if gcells is None or gcells[i] != c:
+                bad.append((out, i, "not loadable" if gcells is None or gcells[i] == "M" else "wrong value"))
+    if n:
+        ctx.count("clause:loadable(elements completed before the failure)")
+        ctx.count(f"owed-elements:{mode}:{'1' if n == 1 else '2-3' if n <= 3 else '4+'}")
+    if bad:
+        outs = sorted({b[0] for b in bad})
+        ctx.violation(case, f"results completed before the failure do not remain loadable: {len(bad)} of the {n} elements whose invocations returned before the "
+                      f"failing invocation was entered ({', '.join(f'{o_}[{i}] {w}' for o_, i, w in bad[:4])}{', …' if len(bad) > 4 else ''}) (mode {mode})",
+                      impl={"loaded": {k: o["loaded"].get(k) for k in outs}}, model={"owed": {k: terms.canon(v) for k, v in R["owed"] if k in outs}})
+        return False
+    return True
+
+
 # ------------------------------------------------------------------------------------------------ judging
 def judge_picker(ctx, case, step, o, M):
     """A raising `output_picker`: user code that is not the wrapped function, so the property's text does not cover it.  What is
@@ -797,6 +892,9 @@ def judge_step(ctx, case, kind, step, o, M):
         for f in case["desc"]["funcs"]:
             for out in f["outputs"]:
                 gen_of_out[out] = gen_of.get(f["name"], 0)
+        # ---- … element by element, against the implementation's own log (no model store involved)
+        if not judge_owed(ctx, case, step, o, mode):
+            return
         pending = None          # a model / implementation disagreement on the failing generation's store (not a clause of the text)
         for out, got_v in o["loaded"].items():
             earlier = gen_of_out.get(out, 0) < gfail
@@ -991,6 +1089,7 @@ def run(ctx):
                         inj["fresh"] = True
                         fresh_left -= 1
                     for step in [inj] + ([inj["then"]] if inj.get("then") else []):
+                        step["model_calls"] = calls
                         step["fail_extra"] = colliding(calls, step)
                         if step["fail_extra"]:
                             ctx.count("interpreted:colliding-invocations")
@@ -1033,6 +1132,10 @@ def run(ctx):
         jobs.sort(key=lambda j: -len(j["injections"]))
         results = run_jobs(ctx, jobs, 6 if ctx.tier == "quick" else 14)
         confirm_hangs(ctx, jobs, results, base)
+        # ---- what each failed run owes, given the invocations the implementation logged as completed before the failure (`map.owed`)
+        attach_owed(ctx, [(job["desc"], step, o) for job, obs_list in zip(jobs, results) if job["kind"] == "map"
+                          for inj, obs in zip(job["injections"], obs_list) if isinstance(obs, dict) and "runs" in obs
+                          for step, o in zip([inj] + ([inj["then"]] if inj.get("then") else []), obs["runs"])])
         for job, obs_list in zip(jobs, results):
             for inj, obs in zip(job["injections"], obs_list):
                 judge(ctx, job["kind"], job["desc"], inj, obs)
@@ -1054,14 +1157,18 @@ def replay(ctx, case):
         desc = case["desc"]
         steps = [inj] + ([inj["then"]] if inj.get("then") else [])
         reqs = [map_request(desc, s["fail"], s["mode"], s.get("fail_extra", ())) if case["kind"] == "map" else call_request(desc, s["out"], s["kw"], s["fail"]) for s in steps]
-        if case["kind"] == "map" and any(s.get("resume") for s in steps):
+        if case["kind"] == "map":
             reqs.append(map_request(desc, [], "seq"))
         resps = ctx.lean(reqs)
         for s, resp in zip(steps, resps):
             s["model"] = resp["r"]
             if s.get("resume"):
                 s["model_full"] = resps[-1]["r"]["stored"]
+            if case["kind"] == "map":
+                s["model_calls"] = [(n, kw) for n, kw in resps[-1]["r"]["calls"]]
         res = run_jobs(ctx, [{"kind": case["kind"], "desc": desc, "injections": [inj], "base": base}], 1)
+        if case["kind"] == "map" and isinstance(res[0][0], dict) and "runs" in res[0][0]:
+            attach_owed(ctx, [(desc, s, o) for s, o in zip(steps, res[0][0]["runs"])])
         print("implementation:", json.dumps(res[0][0], indent=1)[:6000])
         print("model:", json.dumps([s["model"] for s in steps], indent=1)[:6000])
         judge(ctx, case["kind"], desc, inj, res[0][0])
